@@ -230,3 +230,6 @@ def run(cx, rep):
     # ---------------------------------------------------------------- C12.6
     rep.rule("C12.6", "reportDecodeError() reads every constructor argument it read on the reviewed tree")
     ts_common.field_matrix_rule(cx, rep, "C12.6", ['reportDecodeError'])
+    # ---------------------------------------------------------------- C12.7
+    rep.rule("C12.7", "reportDecodeError(): every element of an array-valued constructor argument is accounted for (no fixed-size prefix)")
+    ts_common.truncation_rule(cx, rep, "C12.7", ['reportDecodeError'])
